@@ -23,9 +23,9 @@ CHECKS = {
     "C05": dict(engine="ccmc-explorer", design="§4 C05", technique=MC,
                 text="Finalizer/destructor script lens: every finalize callback is judged in lock-step against the model (not reachable when the finalization batch began or not reachable now, flag not already set, everything it can reach undropped), every drop requires a prior finalize, objects created in finalizers must report already_finalized(); the nofin build must never call finalize.",
                 note="Finalizer behaviours come from a finite script menu (clone/move a field into a global, release fields, allocate, collect, try_unwrap, finalize_again, upgrade a weak)."),
-    "C06": dict(engine="ccmc-explorer", design="§4 C06", technique=MC,
+    "C06": dict(engine="ccmc-explorer+chain", design="§4 C06", technique=MC + "; plus exhaustive enumeration of a deep-chain family (behaviour x length x pops-per-finalizer) for the 10-pass cap and termination",
                 text="Resurrecting scripts (clone / move / weak upgrade into a global) x every collector order reachable in scope; survivors must stay intact, the rest must be reclaimed by this or the epilogue's collections, no second finalization, <=10 tracing passes per collect_cycles(), callback budget turns non-termination into a violation.",
-                note="Scope N<=3; the deep-chain family for the 10-pass cap is not built yet."),
+                note="Scope N<=3 for the state space; chain family: 3 behaviours (pop k handles, create k garbage cycles, cut the chain) x n<=24 (thorough 40) x k<=3."),
     "C07": dict(engine="ccmc-explorer", design="§4 C07", technique=MC + " with fault forking: one successor per callback crash point (trace: before/between/after fields; finalize: before/after; drop; action; closure), up to 2 successive faults",
                 text="Crash-point enumeration in the crash-consistency style: for every operation of every explored history and every callback crash point it passes, the panic is injected, must surface as the injected payload, must leave is_tracing()==false and the flags idle, and the exploration continues from the damaged state with all safety predicates (C01/C03/C05/C08) still evaluated; objects unreachable at the time of the panic may leak.",
                 note="At most 2 faults per history; objects existing at fault time may keep a count that is too high (permitted leak)."),
@@ -108,6 +108,7 @@ def main():
             {"name": "fwd", "path": "harness/src/fwd.rs", "serves_properties": ["C20"], "kind_free_text": "all ordered value pairs for the forwarding trait impls"},
             {"name": "derive-check", "path": "lib/gen_derive.py, derive_check/", "serves_properties": ["C18"], "kind_free_text": "generated type definitions compiled against /repo/derive"},
             {"name": "ccmc-interleave+teardown+parallel", "path": "harness/src/threads.rs, lib/engines.py", "serves_properties": ["C19"], "kind_free_text": "all interleavings under a baton scheduler; teardown scenario matrix in subprocesses; parallel-vs-isolated differential"},
+            {"name": "chain", "path": "harness/src/chain.rs", "serves_properties": ["C06"], "kind_free_text": "deep-chain family: finalizers that keep releasing / creating objects, 10-pass cap, termination"},
             {"name": "ccmc-policy", "path": "harness/src/policy.rs, harness/src/bfs.rs", "serves_properties": ["C15"], "kind_free_text": "explicit-state BFS over the real auto-collect policy with a reference policy oracle"},
             {"name": "ccmc-explorer", "path": "harness/src (explore.rs, world.rs, world_ops.rs, alloc.rs, lens.rs)", "serves_properties": sorted(k for k, v in CHECKS.items() if "ccmc-explorer" in v["engine"]), "kind_free_text": "explicit-state BFS over the real crate by history replay; fault forking; crash isolation"},
         ],
